@@ -311,6 +311,16 @@ class Weaver:
         for ss in it.get("span_scopes", []):
             ed.replace(ss["span"][0], ss["body"][0], "", "D1c")
             ed.replace(ss["body"][1], ss["span"][1], "", "D1c")
+        # D5: a match arm `P1 | P2 if G => B` (or-pattern together with a guard: rejected by Verus) becomes
+        # `kvx_orpat if matches!(kvx_orpat, P1 | P2) && (G) => B` — same arm order, same selection, same body. Only when the
+        # pattern binds no names (otherwise B could use them); the scrutinee value is bound by move to a name nothing else uses.
+        for k, oa in enumerate(it.get("or_guard_arms", [])):
+            if [b for b in oa.get("binds", []) if not b[:1].isupper()]:     # `None`, unit variants and constants parse as identifier patterns
+                raise Undecided(f"{spec['path']}: or-pattern with bindings and a guard (D5 applies to binding-free patterns only)")
+            ptxt = src[oa["pat"][0]:oa["pat"][1]].decode("utf-8")
+            ed.replace(oa["pat"][0], oa["pat"][1], f"kvx_orpat{k}", "D5")
+            ed.insert(oa["guard"][0], f"matches!(kvx_orpat{k}, {ptxt}) && (", "D5")
+            ed.insert(oa["guard"][1], ")", "D5")
         # D1b: a `for` loop over a shared-borrow iterator (`x.iter()` / `.keys()` / `.values()`) whose body consists solely of dropped
         # tracing macros is dropped as a whole: logging only
         for lp in it.get("loops", []):
